@@ -108,6 +108,11 @@ type peer struct {
 	sent    int
 	order   []uint32 // myQ ids in send order
 	embargoEchoes []uint32
+	// echoes of the Conn's Disembargo(senderLoopback) messages that the peer has not sent yet (a peer
+	// is free to take its time; until the echo arrives the Conn's embargo stays up and calls queue
+	// behind it)
+	pendingEcho []pendingEcho
+	lazyEcho    bool // echo only when there is nothing else to do
 	pendingCaps []uint32 // senderHosted ids placed in the message being built
 	theirByToken map[uint64]*theirQuestion
 	theirOrder []*theirQuestion // the Conn's calls in arrival order
@@ -1089,6 +1094,32 @@ func (p *peer) noteConnDescriptor(cd capDesc, app int) {
 	}
 }
 
+type pendingEcho struct{ id, exp uint32 }
+
+func (p *peer) sendEcho(id, expID uint32) {
+	p.send(fmt.Sprintf("Disembargo receiverLoopback id=%d", id), p.build(func(m rpccp.Message) error {
+		dd, err := m.NewDisembargo()
+		if err != nil {
+			return err
+		}
+		t2, err := dd.NewTarget()
+		if err != nil {
+			return err
+		}
+		t2.SetImportedCap(expID)
+		dd.Context().SetReceiverLoopback(id)
+		return nil
+	}))
+}
+
+// moveEcho sends the oldest echo the peer still owes.
+func (p *peer) moveEcho() {
+	e := p.pendingEcho[0]
+	p.pendingEcho = p.pendingEcho[1:]
+	p.r.s.Probe("disembargo_echo_sent_late")
+	p.sendEcho(e.id, e.exp)
+}
+
 func (p *peer) handleDisembargo(d rpccp.Disembargo) {
 	s := p.r.s
 	switch d.Context().Which() {
@@ -1109,19 +1140,11 @@ func (p *peer) handleDisembargo(d rpccp.Disembargo) {
 		s.Logf("conn -> peer: Disembargo senderLoopback id=%d target=pa:%d", id, pa.QuestionId())
 		expID := t.loopback.id
 		// echo (our reflected calls, if any, were sent before)
-		p.send(fmt.Sprintf("Disembargo receiverLoopback id=%d", id), p.build(func(m rpccp.Message) error {
-			dd, err := m.NewDisembargo()
-			if err != nil {
-				return err
-			}
-			t2, err := dd.NewTarget()
-			if err != nil {
-				return err
-			}
-			t2.SetImportedCap(expID)
-			dd.Context().SetReceiverLoopback(id)
-			return nil
-		}))
+		if p.r.deferEcho {
+			p.pendingEcho = append(p.pendingEcho, pendingEcho{id, expID})
+			return
+		}
+		p.sendEcho(id, expID)
 	case rpccp.Disembargo_context_Which_receiverLoopback:
 		id := d.Context().ReceiverLoopback()
 		s.Logf("conn -> peer: Disembargo receiverLoopback id=%d", id)
